@@ -205,7 +205,12 @@ def run(chk):
             got = canon_dump(r["globals"]["__o"])[1] if "globals" in r else ()
             exp_obs = tuple(ev["obs"])
             agrees = (r.get("outcome") == ("ok" if ev["status"] == "ok" else "rt_error")) and got == exp_obs
-            if r.get("outcome") == "rt_error" and not agrees and got == exp_obs[:len(got)]:
+            kf_like = False
+            if r.get("outcome") == "rt_error" and not agrees:
+                # is this exactly what the open finding does? evaluate again with "a range of another kind stops the program"
+                ev2 = gen.evaluate(prog, range_of_another_kind_raises=True)
+                kf_like = ev2.get("status") == "error" and got == tuple(ev2["obs"])
+            if kf_like:
                 chk.violation("match|" + KF, "generated program: a range pattern of another kind than the scrutinee raises '%s' instead of not matching" % r["rt"]["msg"],
                               {"src": text})
                 chk.observed(("gen-kf", frozenset(kinds)))
